@@ -58,13 +58,18 @@ CHECKS.update({
             'the cluster is a stub (FakeClient: submit/scatter/gather/loop); one awaiting producer; merges below buffering nodes (schedule dependent even locally) are not generated'),
 })
 
+CHECKS.update({
+    'C12': ('fault_enumeration', 'crash/restart with the exposed aggregation state as the only durable object: for every generated batch sequence (random sizes incl. empty batches, NaNs, keys entering and leaving, increasing timestamps) and every aggregation family that can expose its state (reductions, groupby, rolling by rows and by time, window(n), window(value), windowed groupby, expanding, ewm) EVERY cut k is executed - a new pipeline is started from a deep copy of the state emitted after batch k - plus chains of two restarts; the resumed results must equal the suffix of the uninterrupted run exactly', '4 (C12)',
+            'no schedule is involved (the simulator contributes the crash/restart discipline only); equality is pandas testing equality with exact values'),
+})
+
 NOT_APPLICABLE = {
     'C06': 'pure function of the batch sequence and the expression tree: no schedule, clock, I/O, peer or fault occurs in the statement or the anchored code, so simulation would only be input generation in disguise (DESIGN 5)',
     'C07': 'same as C06: window(value=T) reads timestamps from the data index, never a clock (DESIGN 5)',
     'C11': 'same as C06: the split into batches is an input, not a schedule (DESIGN 5)',
 }
 
-PENDING = {k: 'check under construction in this session (will be claimed once built)' for k in ['C12']}
+PENDING = {k: 'check under construction in this session (will be claimed once built)' for k in []}
 
 
 def main():
